@@ -191,6 +191,21 @@ JudgeMacro(e, o) ==
         IF IsKind(e.m, e.lit) /\ e.st = CanonKind(e.m, e.lit) /\ e.rt_eq THEN Good(o) ELSE Bad("macro-value-" \o e.m, <<"C16">>, o)
     ELSE Bad("unknown-macro", <<"C16">>, o)
 
+(* 'und' is the empty language, however it is produced (C15)                 *)
+JudgeUnd(e, o) ==
+    IF /\ e.default = Und /\ e.cleared = Und /\ e.try_none = Und /\ e.parsed_und = Und
+       /\ e.default_empty /\ e.cleared_empty /\ e.try_none_empty /\ e.parsed_und_empty
+       /\ ~e.en_empty /\ e.try_some = <<101, 110>> /\ e.all_equal
+    THEN Good(o) ELSE Bad("und-is-not-the-empty-language", <<"C15">>, o)
+
+(* ExtensionType::from_byte: u / t / x / other alphanumeric / error, any case *)
+ExtTypeOf(b) == LET c == LowerB(b) IN
+    IF c = 117 THEN "u" ELSE IF c = 116 THEN "t" ELSE IF c = 120 THEN "x"
+    ELSE IF IsAlnum(b) THEN "other" ELSE "err"
+JudgeExtType(e, o) ==
+    IF e.out = ExtTypeOf(e.b) /\ (e.out = "other" => e.ch = LowerB(e.b)) THEN Good(o)
+    ELSE Bad("extension-type-of-byte", <<IF e.out = "panic" THEN "C01" ELSE "C03">>, o)
+
 Judge(e, o) ==
     CASE e.op = "li_parse"  -> JudgeLiParse(e, o)
       [] e.op = "loc_parse" -> JudgeLocParse(e, o)
@@ -205,6 +220,8 @@ Judge(e, o) ==
       [] e.op = "dir"       -> JudgeDir(e, o)
       [] e.op = "meta"      -> JudgeMeta(e, o)
       [] e.op = "macro"     -> JudgeMacro(e, o)
+      [] e.op = "und"       -> JudgeUnd(e, o)
+      [] e.op = "ext_type"  -> JudgeExtType(e, o)
       [] OTHER              -> Bad("unknown-event", <<>>, o)
 
 (* ----- the trace specification ---------------------------------------------- *)
